@@ -501,7 +501,10 @@ def witness_stream(ck):
     ck.evaluations += 3
     if not (r1 == r2 == r3 and r1[0] == "ok"):
         ck.violation("a single value in a `*` column is not broadcast to every element of the list it abbreviates",
-                     {"scalar": r1, "list": r2, "indexed": r3})
+                     {"model": "class E(ParserModel): f: str = ''; c: str = ''  —  class Row(ParserModel): e: List[E] = []",
+                      "cells_scalar": {"e.*.f": "a", "e.*.c": "x|y"}, "parsed_scalar": r1,
+                      "cells_list": {"e.*.f": "a|a", "e.*.c": "x|y"}, "parsed_list": r2,
+                      "cells_indexed": {"e.1.f": "a", "e.2.f": "a", "e.1.c": "x", "e.2.c": "y"}, "parsed_indexed": r3})
     else:
         ck.count("witness.confirmed")
 
